@@ -30,6 +30,8 @@ RULES = {
     'C03.i': 'the raw entry writer (inserts into Database.map without notifying: the snapshot\'s mark-as-saved and the in-conflict marker) '
              'never stores a NEW value: at every call the value argument is the entry\'s own current value, never a field of a Change — '
              'a changed value written through it is committed and no watcher hears of it',
+    'C03.j': 'notifications are decided by the watchers map and sent by the mutators: a pure notifier reaches its lookup of Watchers.map on '
+             'every path, is called only from the three mutators, and registering a watch is a single critical section of Watchers.map',
 }
 
 VALUE_MAP = 'std::collections::HashMap::<std::string::String, nundb::bo::Value>::'
@@ -220,6 +222,61 @@ def _run(ck, m):
               'commit is newest when the notification is sent — two writers produce (a, n+1) and (b, n+1), version n is never announced and the '
               'highest-versioned notification may carry a stale value' % short(b.id), '%s:%s' % (b.file, b.line))
     ck.floor('C03.g', ng, 1, 'pure notifier bodies')
+    # the only way a notifier skips the sends is that the watchers map has no entry for the key: the look at Watchers.map is reached on
+    # every path (a "nobody watches" fast path on a separately kept counter goes wrong as soon as the counter drifts from the map)
+    nj = 0
+    for nid in sorted(notifiers):
+        b = P.bodies[nid]
+        acq = [bi for bi, t in b.calls() if callee_decl(t) in locks.LOCK_FNS and 'Watchers.map' in locks.lock_id_of(b, t['args'][0])]
+        if any(mode == 'W' and l == 'Database.map' for l, mode in S.get(nid, ())):
+            # an inline notifier of a mutator: the lookup must follow every committed write, judged by C03.a
+            continue
+        nj += 1
+        always = any(b.postdominates(x, 0) for x in acq)
+        ck.ob('C03.j', short(b.id), 'notifier-always-consults-the-watchers-map', always,
+              'the notifier reaches its lookup of Watchers.map on every path' if always else
+              '%s can return before it looks at Watchers.map (an early exit on something other than the map itself): a change is committed and '
+              'the registered watchers of the key are not told' % short(b.id), '%s:%s' % (b.file, b.line))
+    ck.floor('C03.j', nj, 1, 'pure notifier bodies')
+    # who may notify: only the three mutators (and the notifier's own helpers) call a pure notifier — a notification sent from anywhere
+    # else announces a change that was not stored
+    from props.C02 import store_fn as _st, increment_fn as _inc, remover_fn as _rem
+    allowed = {_st(m).id, _inc(m).id, _rem(m).id} | set(notifiers)
+    strangers = []
+    for nid in sorted(notifiers):
+        if any(mode == 'W' and l == 'Database.map' for l, mode in S.get(nid, ())):
+            continue
+        callers_ = P.callers().get(nid, [])
+        # a change notifier is one the mutators use; the arbiter's delivery function also looks at Watchers.map but is another channel
+        if not any(cb_.id in (_st(m).id, _inc(m).id, _rem(m).id) for cb_, _ in callers_):
+            continue
+        for cb, cbi in callers_:
+            owner = cb
+            while owner.parent and owner.parent in P.bodies:
+                owner = P.bodies[owner.parent]
+            if owner.id not in allowed and not owner.id.startswith(('nundb::client::', 'nundb::command_line::')):
+                strangers.append('%s@%s' % (short(owner.id), cb.loc(cbi)))
+    ck.ob('C03.j', 'notifiers', 'only-mutators-notify', not strangers,
+          'the pure notifiers are called by the mutators only' if not strangers else
+          'a notifier is called from %s, which is not one of the mutators: watchers receive `changed` for a value that was not stored '
+          '(same value, same version)' % strangers, strangers[0] if strangers else '')
+    # watching is one critical section: the function that registers a watch does not also go through another function that writes
+    # Watchers.map (an "unwatch then watch" leaves a gap in which the subscriber is not registered)
+    nw = 0
+    for b in node_bodies(m):
+        regs = [bi for bi, t in b.calls() if callee(t).endswith('bo::Database::watch_key')]
+        if not regs or b.id.endswith('bo::Database::watch_key'):
+            continue
+        nw += 1
+        others = [b.loc(bi) for bi, t in b.calls() if bi not in regs and P.bodies.get(callee(t)) is not None
+                  and any(mode == 'W' and l == 'Watchers.map' for l, mode in S.get(callee(t), ()))]
+        if b.id.endswith('consensus_ops::<impl nundb::bo::Database>::register_arbiter') or 'register_arbiter' in b.id:
+            others = []       # the arbiter registration removes answered records after subscribing (C13.c)
+        ck.ob('C03.j', short(b.id), 'watch-is-one-section', not others,
+              'registering a watch touches Watchers.map in one critical section' if not others else
+              '%s registers the watch and also writes Watchers.map through another call (%s): between the two sections the subscriber is not '
+              'registered — a change committed in the gap is never announced to a subscriber that never unwatched' % (short(b.id), others), b.loc(regs[0]))
+    ck.floor('C03.j', nw, 1, 'functions that register a watch')
     # ---- (c) ---------------------------------------------------------------------------
     n = 0
     hit = False
